@@ -1147,7 +1147,8 @@ where
     let mut visited = HashSet::new();
     // Files we want to parse but haven't yet.
     let mut to_visit = Vec::new();
-    let root = path.parent().unwrap();
+    // An empty path and the file system root have no parent; reading them fails below.
+    let root = path.parent().unwrap_or_else(|| Path::new(""));
 
     if bundle_std {
         to_visit.push(FileOrLib::Lib("preamble"));
